@@ -81,13 +81,13 @@ impl<T> AsSliceIdentity<T> for [T] { fn as_slice(&self) -> &[T] { self } }
   plain
 @*/
 /*@end*/
-/*@macro lang/dynamics/src/impls.rs :: macro integer_arithmetic_result @*/
+/*@macro? lang/dynamics/src/impls.rs :: macro integer_arithmetic_result @*/
 /*@fn lang/dynamics/src/impls.rs :: fn integer_arithmetic
   plain
   vec_as_slice args
 @*/
 /*@end*/
-/*@macro lang/dynamics/src/impls.rs :: macro float_arithmetic_result @*/
+/*@macro? lang/dynamics/src/impls.rs :: macro float_arithmetic_result @*/
 /*@fn lang/dynamics/src/impls.rs :: fn float_arithmetic
   plain
   vec_as_slice args
